@@ -4,7 +4,7 @@ from re import Pattern
 from flowmark.linewrapping.tag_handling import TEMPLATE_TAG_PATTERN
 
 ELLIPSIS_PATTERN: Pattern[str] = re.compile(
-    r"(^|[\w\"\'“‘])(\s*)(\.\.\.)([.,:;?!)\-—\"\'”’]?)(\s*)",
+    r"(^|[\w\"\'“‘”’])(\s*)(\.\.\.)([.,:;?!)\-—\"\'”’]?)(\s*)",
     re.MULTILINE,
 )
 
@@ -18,8 +18,9 @@ def ellipses(text: str) -> str:
     - `...` must be followed by word character (with optional space) OR punctuation OR end of line
     - If immediately before the `...` is a word character (no whitespace), a space is inserted before it.
     - If immediately after the `...` is a word character (no whitespace), a space is inserted after it.
-    - If the punctuation [\"\'“‘] immediately precedes the ellipsis, there is no space between the
-      punctuation and the ellipsis.
+    - If the punctuation [\"\'“‘”’] immediately precedes the ellipsis, there is no space between the
+      punctuation and the ellipsis (a closing curly quote is what smart quotes makes of the
+      straight quote in `"hi"...`, so the result is the same with and without smart quotes).
     - If punctuation [.,:;?!)\-—] follows the ellipsis, there is no space between the ellipsis and
       the punctuation.
     """
